@@ -3,7 +3,7 @@ contract modules that must be loaded to decide it."""
 PROPS = {
     'C12': ['contracts.c12_cbc_check', 'contracts.recordlayer', 'contracts.links'],
     'C01': ['contracts.c12_cbc_check', 'contracts.recordlayer', 'contracts.sendmsg', 'contracts.m2_posthandshake', 'contracts.m2_recordio', 'contracts.transport', 'contracts.small_extras', 'contracts.m2_tls13_states'],
-    'C02': ['contracts.c12_cbc_check', 'contracts.recordlayer', 'contracts.m2_recordlayer', 'contracts.m2_recordio', 'contracts.m2_getmsg', 'contracts.defragmenter', 'contracts.ciphers', 'contracts.links'],
+    'C02': ['contracts.c12_cbc_check', 'contracts.recordlayer', 'contracts.m2_recordlayer', 'contracts.m2_recordio', 'contracts.m2_getmsg', 'contracts.defragmenter', 'contracts.ciphers', 'contracts.links', 'contracts.m2_sslv2_record'],
     'C18': ['contracts.sessioncache'],
     'C19': ['contracts.settings', 'contracts.m2_server', 'contracts.m2_client', 'contracts.settings_copy', 'contracts.ecc_tables'],
     'C20': ['contracts.suites', 'contracts.m2_client', 'contracts.m2_server', 'contracts.m2_factory'],
@@ -14,7 +14,7 @@ PROPS = {
     'C13': ['contracts.m2_client', 'contracts.m2_posthandshake', 'contracts.m2_server', 'contracts.small_extras', 'contracts.m2_binders', 'contracts.m2_server13', 'contracts.m2_factory'],
     'C09': ['contracts.kdf', 'contracts.ciphers', 'contracts.m2_tls13_states', 'contracts.m2_exporter', 'contracts.links'],
     'C15': ['contracts.codec', 'contracts.messages_simple', 'contracts.extensions_codec', 'contracts.x509_dc', 'contracts.ske_write'],
-    'C08': ['contracts.codec', 'contracts.messages_simple', 'contracts.m2_recordlayer', 'contracts.m2_getmsg', 'contracts.m2_posthandshake', 'contracts.m2_recordio', 'contracts.m2_server', 'contracts.transport', 'contracts.m2_parse_safety', 'contracts.m2_decompress', 'contracts.m2_ext_none', 'contracts.extensions_codec', 'contracts.links'],
+    'C08': ['contracts.codec', 'contracts.messages_simple', 'contracts.m2_recordlayer', 'contracts.m2_getmsg', 'contracts.m2_posthandshake', 'contracts.m2_recordio', 'contracts.m2_server', 'contracts.transport', 'contracts.m2_parse_safety', 'contracts.m2_decompress', 'contracts.m2_ext_none', 'contracts.extensions_codec', 'contracts.links', 'contracts.m2_sslv2_record'],
     'C14': ['contracts.m2_recordlayer', 'contracts.m2_getmsg', 'contracts.defragmenter', 'contracts.transport', 'contracts.m2_asyncsm', 'contracts.links'],
     'C16': ['contracts.m2_recordlayer', 'contracts.m2_getmsg', 'contracts.m2_posthandshake', 'contracts.sendmsg', 'contracts.m2_tls13_states'],
     'C17': ['contracts.m2_recordlayer', 'contracts.m2_getmsg', 'contracts.m2_posthandshake', 'contracts.transport', 'contracts.links', 'contracts.m2_server', 'contracts.m2_parse_safety'],
